@@ -75,16 +75,16 @@ func main() {
 		json.NewEncoder(stdout).Encode(d.Plan(*tier))
 		return
 	}
-	// hang backstop: a single case that makes no progress for 5 minutes of real time (typical cases take
-	// milliseconds) is a hang outside the instrumented loops; the worker dies and the driver attributes the crash
+	// hang backstop: a single case that makes no progress (no Progress, Count or Distinct call) for 10 minutes of real
+	// time (typical cases take milliseconds) is a hang outside the instrumented loops; the worker dies and the driver attributes the crash
 	go func() {
 		last, since := core.ProgressTicks.Load(), time.Now()
 		for {
 			time.Sleep(5 * time.Second)
 			if cur := core.ProgressTicks.Load(); cur != last {
 				last, since = cur, time.Now()
-			} else if time.Since(since) > 5*time.Minute {
-				fmt.Fprintln(os.Stderr, "vh: no progress for 5 minutes: hang")
+			} else if time.Since(since) > 10*time.Minute {
+				fmt.Fprintln(os.Stderr, "vh: no progress for 10 minutes: hang")
 				buf := make([]byte, 1<<16)
 				n := runtime.Stack(buf, true)
 				os.Stderr.Write(buf[:n])
